@@ -51,6 +51,10 @@ def one_family(sc, verdict, fam, thorough, seed, invariants, stats, cmds, sample
     rs, paths = vlib.sim_paths(sc, "IncrSync", "gen_%s.cfg" % fam["name"], n, fam.get("depth", 60), seed, fields={"last"})
     cmds.append(rs.cmd)
     steps = [[s["last"] for s in pth] for pth in paths]
+    # hand-picked source streams of this family (only the emissions: the driver then parses, dequeues, ticks and lets the target
+    # process everything until nothing moves), always replayed whatever the simulator drew
+    for items in fam.get("fixed", []):
+        steps.append([{"a": "SrcEmit", "item": {"t": t, "d": d, "id": i + 1}} for i, (t, d) in enumerate(items)])
     trace = sc.path("trace-%s.ndjson" % fam["name"])
     inp = {"seed": seed, "cfg": drv_cfg(p), "paths": steps, "trace": trace}
     rc, out, err = vlib.run_vdrv(["incr"], stdin=json.dumps(inp), timeout=3000)
